@@ -1,6 +1,11 @@
 //@unit bb_sweep
 //@serves C06
 //@backend verus
+// bigBed coverage sweep: the closure `add_interval_to_summary` inside bigbedwrite::process_val
+// (R10 lift).  The property (C06, bigBed half): the summary is taken over the per-base coverage
+// depth of all entries, each covered base counted once however many entries overlap it.
+// Ghost state: `ents` = entries already processed on this chromosome, `d0` = integer depth of
+// every pending segment (the code stores it as f32).
 use vstd::prelude::*;
 use vstd::std_specs::ops::*;
 use vstd::std_specs::convert::FromSpec;
@@ -14,12 +19,204 @@ verus! {
 //@rule R8
 //@end
 //@include ../_shared/vlist.rs
+//@include sweep_spec.rs
+
+// verified stand-ins for the `.map(|x| ..)` closures on Option<&Value> (R11 substitutions below)
+fn last_end_of(l: &VList) -> (r: Option<u32>)
+    ensures r.is_some() == (l@.len() > 0), r.is_some() ==> r.unwrap() == l@.last().end,
+{ match l.get_last() { Some(o) => Some(o.end), None => None } }
+fn first_starts_before(l: &VList, x: u32) -> (r: bool)
+    ensures r == (l@.len() > 0 && l@[0].start < x),
+{ match l.get_first() { Some(f) => f.start < x, None => false } }
+
+// ---------------- what a flushed piece does to the summary (C06 "bases, min, max, sum, sum of squares") ----
+spec fn sbases(s: Option<Summary>) -> int { match s { Some(x) => x.bases_covered as int, None => 0 } }
+spec fn piece_val(pc: Piece) -> f64 { f64::from_spec(f32_of_nat(pc.d)) }
+spec fn apply_piece(s: Option<Summary>, pc: Piece) -> Option<Summary> {
+    let w = f64::from_spec((pc.e - pc.s) as u32);
+    let x = piece_val(pc);
+    match s {
+        None => Some(Summary { total_items: 0, bases_covered: (pc.e - pc.s) as u64, min_val: x, max_val: x,
+                               sum: w.mul_spec(x), sum_squares: w.mul_spec(x).mul_spec(x) }),
+        Some(t) => Some(Summary { total_items: t.total_items, bases_covered: (t.bases_covered + (pc.e - pc.s)) as u64,
+                               min_val: fmin(t.min_val, x), max_val: fmax(t.max_val, x),
+                               sum: t.sum.add_spec(w.mul_spec(x)), sum_squares: t.sum_squares.add_spec(w.mul_spec(x).mul_spec(x)) }),
+    }
+}
+spec fn fold_pieces(s: Option<Summary>, ps: Seq<Piece>) -> Option<Summary>
+    decreases ps.len()
+{
+    if ps.len() == 0 { s } else { apply_piece(fold_pieces(s, ps.drop_last()), ps.last()) }
+}
+/// where the flushed pieces end
+spec fn flushed_to(ps: Seq<Piece>, a: int) -> int { if ps.len() > 0 { ps.last().e } else { a } }
 
 //@extract closure bigtools/src/bbi/bigbedwrite.rs process_val add_interval_to_summary
-//@header fn add_interval_to_summary(overlap: &mut VList, summary: &mut Option<Summary>, item_start: u32, item_end: u32, next_start_opt: Option<u32>)
-//@rule R5 min=3
+//@header fn add_interval_to_summary(overlap: &mut VList, summary: &mut Option<Summary>, item_start: u32, item_end: u32, next_start_opt: Option<u32>, Ghost(ents): Ghost<Seq<(u32, u32)>>, Ghost(d0): Ghost<Seq<nat>>) -> (out: Ghost<(Seq<nat>, Seq<Piece>)>)
+//@rule R5 min=4
 //@rule R6 min=2
-//@rule R12f min=2
+//@sub /overlap\s*\.get_first\(\)\s*\.map\(\|f\| f\.start == item_start\)\s*\.unwrap_or\(true\)/ => (overlap@.len() > 0 ==> overlap@[0].start == item_start)
+//@sub /overlap\s*\.get_last\(\)\s*\.map\(\|o\| o\.end >= item_start\)\s*\.unwrap_or\(true\)/ => (overlap@.len() > 0 ==> overlap@.last().end >= item_start)
+//@sub /overlap\.get_last\(\)\.map\(\|o\| o\.end\)/ => last_end_of(overlap)
+//@sub /overlap\s*\.get_first\(\)\s*\.map\(\|f\| f\.start < next_start\)\s*\.unwrap_or\(false\)/ => first_starts_before(overlap, next_start)
+//@sub /u32::max_value\(\)/ => u32::MAX
+//@sig
+    requires
+        [[L: pre]]
+        item_start <= item_end, item_start < u32::MAX,
+        next_start_opt.is_some() ==> item_start <= next_start_opt.unwrap(),
+        ents.len() < 0xff_ffff,
+        segs_ok(old(overlap)@, d0, item_start as int, ents),
+        sbases(*old(summary)) == cnt(ents, 0, item_start as int),
+    ensures
+        ({
+            let ents2 = ents.push((item_start, item_end));
+            let next_start = if next_start_opt.is_some() { next_start_opt.unwrap() } else { u32::MAX };
+            let b = flushed_to(out@.1, item_start as int);
+            let hi0 = hi_of(old(overlap)@, item_start as int);
+            [[L: sweep_invariant]]
+            &&& segs_ok(final(overlap)@, out@.0, next_start as int, ents2)
+            [[L: pending_continues_flushed]]
+            &&& segs_ok(final(overlap)@, out@.0, b, ents2)
+            &&& item_start <= b <= next_start
+            &&& (final(overlap)@.len() > 0 ==> b == next_start)
+            [[L: flushed_pieces_tile_and_have_exact_depth]]
+            &&& pieces_ok(out@.1, item_start as int, b, ents2)
+            [[L: summary_is_fold_of_flushed_pieces]]
+            &&& *final(summary) == fold_pieces(*old(summary), out@.1)
+            [[L: bases_covered_exact]]
+            &&& sbases(*final(summary)) == cnt(ents2, 0, next_start as int)
+            [[L: tail_reaches_max_end]]
+            &&& (final(overlap)@.len() > 0 ==> final(overlap)@.last().end == imax(hi0, item_end as int))
+            &&& (final(overlap)@.len() == 0 ==> imax(hi0, item_end as int) <= next_start)
+            [[L: chrom_end_flushes_everything]]
+            &&& (next_start_opt.is_none() ==> final(overlap)@.len() == 0)
+        }),
+//@open
+            let ghost ents2 = ents.push((item_start, item_end));
+            let ghost hi0 = hi_of(overlap@, item_start as int);
+            let ghost mut d = d0;
+            let ghost mut k: int = 0;
+            proof { float_ax::float_det(); }
+//@loop 1
+                invariant
+                    [[L: loop1/frame]]
+                    item_start <= item_end, ents.len() < 0xff_ffff,
+                    *summary == *old(summary),
+                invariant_except_break
+                    [[L: loop1/increment_invariant]]
+                    sweep_inv(overlap@, d, k, item_start, item_end, ents),
+                    hi_of(overlap@, item_start as int) == hi0,
+                    [[L: loop1/index_is_position_k]]
+                    index.some() ==> overlap.has(index) && overlap.pos(index) == k && k < overlap@.len(),
+                    !index.some() ==> k == overlap@.len(),
+                ensures
+                    [[L: loop1/exit]]
+                    sweep_done(overlap@, d, k, item_start, item_end, ents),
+                    hi_of(overlap@, item_start as int) == hi0,
+                decreases
+                    [[L: loop1/termination]]
+                    overlap@.len() - k,
+//@at /match overlap\.get_mut\(index\) \{/ before
+                proof { float_ax::float_det(); }
+                let ghost l_in = overlap@;
+//@at /^\s*break;\s*$/ before
+                            proof {
+                                let nv = Value { start: l_in[k].start, end: item_end, value: l_in[k].value.add_spec(1.0f32) };
+                                let tl = Value { start: item_end, end: l_in[k].end, value: nv.value.sub_spec(1.0f32) };
+                                assert(overlap@ == l_in.update(k, nv).insert(k + 1, tl));
+                                lemma_sweep_split(l_in, d, k, item_start, item_end, ents, nv, tl); [[L: loop1/split_keeps_depths_exact]]
+                                d = d.update(k, d[k] + 1).insert(k + 1, d[k]);
+                                k = k + 1;
+                            }
+//@at /index = overlap\.next_index\(index\);/ after
+                        proof {
+                            let nv = Value { start: l_in[k].start, end: l_in[k].end, value: l_in[k].value.add_spec(1.0f32) };
+                            assert(overlap@ == l_in.update(k, nv));
+                            lemma_sweep_nosplit(l_in, d, k, item_start, item_end, ents, nv); [[L: loop1/increment_keeps_depths_exact]]
+                            d = d.update(k, d[k] + 1);
+                            k = k + 1;
+                        }
+//@at /overlap@\.last\(\)\.end >= item_start\)\);/ before
+            proof {
+                lemma_sweep_finish(overlap@, d, k, item_start, item_end, ents);
+                if overlap@.len() > 0 { let _ = overlap@[overlap@.len() - 1]; }
+            }
+            let ghost l_mid = overlap@;
+//@at /let next_start = next_start_opt\.unwrap_or/ before
+            proof {
+                if l_mid.len() > 0 && l_mid.last().end >= item_end {
+                    lemma_tail_keep(l_mid, d, item_start, item_end, ents);
+                } else {
+                    let v = Value { start: hi_of(l_mid, item_start as int) as u32, end: item_end, value: 1.0f32 };
+                    lemma_tail_push(l_mid, d, item_start, item_end, ents, v);
+                    assert(overlap@ == l_mid.push(v));
+                    d = d.push(1nat);
+                }
+                assert(segs_ok(overlap@, d, item_start as int, ents2));
+                assert(hi_of(overlap@, item_start as int) == imax(hi0, item_end as int)); [[L: tail_extended]]
+            }
+            let ghost hi1 = imax(hi0, item_end as int);
+//@at /let next_start = next_start_opt\.unwrap_or/ after
+            let ghost mut ps: Seq<Piece> = Seq::empty();
+            let ghost mut lo: int = item_start as int;
+            proof {
+                lemma_cnt_push_left(ents, (item_start, item_end), 0, item_start as int);
+            }
+//@loop 2
+                invariant
+                    [[L: flush/frame]]
+                    ents2 == ents.push((item_start, item_end)),
+                    next_start == (if next_start_opt.is_some() { next_start_opt.unwrap() } else { u32::MAX }),
+                    hi1 == imax(hi0, item_end as int),
+                    [[L: flush/position]]
+                    item_start <= lo <= next_start,
+                    lo == flushed_to(ps, item_start as int),
+                    [[L: flush/sweep_invariant]]
+                    segs_ok(overlap@, d, lo, ents2),
+                    hi_of(overlap@, lo) == hi1,
+                    [[L: flush/pieces_tile_and_have_exact_depth]]
+                    pieces_ok(ps, item_start as int, lo, ents2),
+                    [[L: flush/summary_is_fold_of_pieces]]
+                    *summary == fold_pieces(*old(summary), ps),
+                    [[L: flush/bases_covered_exact]]
+                    sbases(*summary) == cnt(ents2, 0, lo),
+                decreases
+                    [[L: flush/termination]]
+                    overlap@.len(),
+                    (if overlap@.len() > 0 && overlap@[0].start < next_start { 1int } else { 0int }),
+//@at /let mut removed = overlap\.remove_first\(\)\.unwrap\(\);/ before
+                proof { float_ax::float_det(); }
+                let ghost l_in = overlap@;
+                let ghost sum_in = *summary;
+//@at /match summary \{/ before
+                proof {
+                    let d_first = d[0];
+                    let _ = l_in[0];
+                    assert(seg_depth(l_in[0], d[0], ents2));
+                    let lo2: int = if l_in[0].end <= next_start { l_in[0].end as int } else { next_start as int };
+                    let pc = Piece { s: lo, e: lo2, d: d_first };
+                    if l_in[0].end <= next_start {
+                        lemma_flush_whole(l_in, d, lo, ents2);
+                        d = d.subrange(1, d.len() as int);
+                    } else {
+                        lemma_flush_part(l_in, d, lo, ents2, next_start, removed);
+                    }
+                    assert(piece_depth(pc, ents2));
+                    lemma_pieces_push(ps, item_start as int, lo, pc, ents2);
+                    lemma_cnt_step(ents2, lo, lo2);
+                    lemma_cnt_bound(ents2, 0, lo);
+                    assert(ps.push(pc).drop_last() =~= ps);
+                    assert(len == (pc.e - pc.s) as u32); [[L: flush/piece_length_is_flushed_span]]
+                    assert(val == piece_val(pc)); [[L: flush/piece_value_is_depth]]
+                    ps = ps.push(pc);
+                    lo = lo2;
+                }
+//@close
+            proof {
+                if overlap@.len() > 0 { let _ = overlap@[0]; } else { lemma_cnt_zero_ext(ents2, lo, next_start as int); }
+            }
+            Ghost((d, ps))
 //@end
 
 } // verus!
